@@ -943,6 +943,49 @@ func edgeScenario(name, role string, iat int, kind string, arg int, seed int64) 
 					s.Point("peer-done", func() bool { return p.refDone })
 					finished = true
 					return
+				case "read-deadline-poll":
+					// the application polls with SetReadDeadline (the one deadline
+					// an obfs4 connection supports): a Read times out -- on an idle
+					// link (arg 0) or with half a frame received (arg 1) --, the
+					// deadline is cleared and the Read is retried
+					inbound = o4h.Pattern('I', 0, 900)
+					p = establish(s, role, br, sf, "", rnd.New(seed, "c01-ref-"+name), func(p *pairT) {
+						raw := p.rs.Tx.Seal(ref.Packet(ref.PktPayload, inbound, 11))
+						if arg == 1 {
+							p.rs.SendRaw(raw[:len(raw)/2])
+							raw = raw[len(raw)/2:]
+						}
+						sched.Sleep(10 * time.Second)
+						p.rs.SendRaw(raw)
+					})
+					if p.hsErr != nil {
+						return
+					}
+					rb := make([]byte, 4096)
+					timeouts := 0
+					for round := 0; len(got) < len(inbound) && round < 6; round++ {
+						if err := p.conn.SetReadDeadline(s.Now().Add(4 * time.Second)); err != nil {
+							rdErr = fmt.Errorf("SetReadDeadline: %w", err)
+							return
+						}
+						n, err := p.conn.Read(rb)
+						got = append(got, rb[:n]...)
+						if err != nil {
+							if !wire.IsTimeout(err) {
+								rdErr = err
+								return
+							}
+							timeouts++
+						}
+					}
+					pausedRound = timeouts
+					if err := p.conn.SetReadDeadline(time.Time{}); err != nil {
+						rdErr = fmt.Errorf("SetReadDeadline: %w", err)
+						return
+					}
+					s.Point("peer-done", func() bool { return p.refDone })
+					finished = true
+					return
 				case "other-conn-write-failure":
 					outbound = o4h.Pattern('O', 0, 2000)
 					other = establish(s, role, br, sf, "-other", rnd.New(seed, "c01-ref-other-"+name), func(p *pairT) {
@@ -1034,6 +1077,15 @@ func edgeScenario(name, role string, iat int, kind string, arg int, seed int64) 
 				} else if p.rs.RxErr != nil || !bytes.Equal(p.rs.Payload, outbound) {
 					fail(c, "delivery", "edge/paused-session/outbound", "over a session with pauses the endpoint wrote %d bytes, the peer decoded %d (error: %v)", len(outbound), len(p.rs.Payload), p.rs.RxErr)
 				}
+			case "read-deadline-poll":
+				if pausedRound == 0 {
+					c.Trivial() // no Read timed out
+				}
+				if rdErr != nil {
+					fail(c, "io-error", "edge/read-deadline-poll/error", "an application polling with 4 s read deadlines (%d Reads timed out, the peer sent after 10 s): %v", pausedRound, rdErr)
+				} else if !finished || !bytes.Equal(got, inbound) {
+					fail(c, "delivery", "edge/read-deadline-poll/lost", "after %d timed-out Reads the peer's %d bytes were written, but Read delivered %d (finished=%v, blocked %+v)", pausedRound, len(inbound), len(got), finished, res.Blocked)
+				}
 			case "other-conn-write-failure":
 				if otherErr == nil {
 					c.Trivial() // the other connection issued fewer wire writes than the fault index
@@ -1122,6 +1174,9 @@ func main() {
 				}
 				for _, n := range []int{0, 1, 2} {
 					emit(edgeScenario(fmt.Sprintf("edge/%s/iat%d/other-conn-write-failure/%d", role, iat, n), role, iat, "other-conn-write-failure", n, cfg.Seed))
+				}
+				for how := 0; how <= 1; how++ {
+					emit(edgeScenario(fmt.Sprintf("edge/%s/iat%d/read-deadline-poll/%s", role, iat, []string{"idle", "mid-frame"}[how]), role, iat, "read-deadline-poll", how, cfg.Seed))
 				}
 				for who := 0; who <= 1; who++ {
 					emit(edgeScenario(fmt.Sprintf("edge/%s/iat%d/paused-session/%s-pauses", role, iat, []string{"real", "peer"}[who]), role, iat, "paused-session", who, cfg.Seed))
